@@ -5,7 +5,8 @@ import RsslVerif.Model.GenHlsl
 
 * `Cast(type_id, expr)`: the operand itself is generated (never looked through); the cast is dropped only when the
   target is the *scalar* `IntLiteral` / `FloatLiteral` type; otherwise `Cast(generate_type_id(type), inner)`.
-  A *vector of a literal type* reaches `generate_scalar_type` and panics (known finding, kept as the panic it is).
+  A *vector of a literal type* reaches `generate_scalar_type` and panics (kept as the panic it is; the type checker
+  no longer builds such a target since fixes 40c6233 / c05bffa).
 * `Swizzle(object, slots)`: `Member(generate(object), letters)` with one letter per slot (`swizzleChar`, re-extracted).
 * `Constructor(type, slots)`: `Call(Identifier(type name), [], [generate(slot.expr) …])`, slots in order, arity unused.
 * `generate_type_impl`, `Vector(st, x)` arm: the scalar's name with the dimension appended.
